@@ -127,10 +127,21 @@ ParentPoints(W, t, p) ==
 (* no parents at all / all parents before the cutoff / only absolute triggers *)
 Parentless(W, t, p, cutoff) ==
   IF ~HasParents(W, t) THEN TRUE
-  ELSE IF t \in W.seqtasks THEN FALSE
+  \* (a sequential task's previous instance is an implicit parent, unless it is before the cutoff)
+  ELSE IF t \in W.seqtasks /\ PrevPoint(W, t, p) # NoPoint /\ PrevPoint(W, t, p) >= cutoff THEN FALSE
   ELSE \/ ParentPoints(W, t, p) = {}
        \/ \A x \in ParentPoints(W, t, p) : x < cutoff
        \/ OnlyAbsAt(W, t, p)
+
+(* The graph's own notion, independent of how cylc finds such instances:    *)
+(* nothing at or after the cutoff that the instance has to wait for.  (For   *)
+(* a sequential task the previous instance is an implicit parent.)          *)
+GraphParentless(W, t, p, cutoff) ==
+  /\ \/ ~HasParents(W, t)
+     \/ ParentPoints(W, t, p) = {}
+     \/ \A x \in ParentPoints(W, t, p) : x < cutoff
+     \/ OnlyAbsAt(W, t, p)
+  /\ (t \in W.seqtasks /\ HasParents(W, t)) => (PrevPoint(W, t, p) = NoPoint \/ PrevPoint(W, t, p) < cutoff)
 
 (* cylc walks each of the task's recurrences separately: the next point of *)
 (* the recurrence after `point` (or its first point >= start) counts only  *)
